@@ -25,7 +25,7 @@ namespace libchess {
             const auto blockers = occupied() ^ bb;
             const auto discovery = movegen::bishop_moves(sq, blockers);
             const auto diff = blockers & discovery & ~before;
-            const auto attackers = diff & (pieces(!turn(), Piece::Bishop) | pieces(!turn(), Piece::Queen));
+            const auto attackers = diff & (pieces(!s, Piece::Bishop) | pieces(!s, Piece::Queen));
 
             if (attackers) {
                 pinned |= bb;
@@ -41,7 +41,7 @@ namespace libchess {
             const auto blockers = occupied() ^ bb;
             const auto discovery = movegen::rook_moves(sq, blockers);
             const auto diff = blockers & discovery & ~before;
-            const auto attackers = diff & (pieces(!turn(), Piece::Rook) | pieces(!turn(), Piece::Queen));
+            const auto attackers = diff & (pieces(!s, Piece::Rook) | pieces(!s, Piece::Queen));
 
             if (attackers) {
                 pinned |= bb;
